@@ -10,8 +10,11 @@ package grpcutil
 //   md/…    header lists over names in 3 case variants, repeated keys and -bin
 //           keys: ProtoHeader→MD, MD→ProtoHeader (the same object converted
 //           twice), both round trips, AppendToOutgoingContext.
-//   bin/…   one -bin key with every 1-byte value and a sample of 2-3 byte
+//   bin/…   one -bin key with every 1-byte value and a sample of 2-6 byte
 //           values, alone and followed by a second value.
+//   …/f=N   the same header list with the base64 text of its -bin values
+//           written padded (1), mixed (2), URL-safe unpadded (3) / padded (4).
+//   gerr/enc/…  valid but non-canonical encodings of detail values.
 //   pct/…   PercentEncodeMessage / ShouldEscapeByteInMessage on every byte
 //           string of length ≤2 and all 3-byte strings over a fixed alphabet.
 
@@ -34,6 +37,10 @@ import (
 	"google.golang.org/grpc/status"
 	"google.golang.org/protobuf/encoding/protowire"
 	"google.golang.org/protobuf/proto"
+	"google.golang.org/protobuf/reflect/protoreflect"
+	"google.golang.org/protobuf/reflect/protoregistry"
+	"google.golang.org/protobuf/types/descriptorpb"
+	"google.golang.org/protobuf/types/dynamicpb"
 	"google.golang.org/protobuf/types/known/anypb"
 	"google.golang.org/protobuf/types/known/durationpb"
 	"google.golang.org/protobuf/types/known/emptypb"
@@ -257,6 +264,321 @@ func c18gCompare(code int32, msg string, details []*anypb.Any, s c18gErrSpec, ex
 	return "", ""
 }
 
+// ---------------------------------------------------------------------------
+// grammar of valid but non-canonical encodings of a detail value
+// ---------------------------------------------------------------------------
+
+// c18gEncVariant is one alternative encoding of the value of a detail: the bytes
+// are valid for the type (proto.Unmarshal accepts them) but differ from what
+// the Go marshaller emits for the decoded value. Another protobuf runtime may
+// legitimately put any of them on the wire; a conversion must carry them
+// verbatim.
+type c18gEncVariant struct {
+	Name  string
+	Value []byte
+}
+
+type c18gWireRec struct {
+	Num protowire.Number
+	Typ protowire.Type
+	Raw []byte // tag + value
+	Val []byte // value part only
+}
+
+func c18gSplitRecords(b []byte) ([]c18gWireRec, bool) {
+	var out []c18gWireRec
+	for len(b) > 0 {
+		num, typ, n := protowire.ConsumeTag(b)
+		if n < 0 {
+			return nil, false
+		}
+		m := protowire.ConsumeFieldValue(num, typ, b[n:])
+		if m < 0 {
+			return nil, false
+		}
+		out = append(out, c18gWireRec{num, typ, append([]byte(nil), b[:n+m]...), append([]byte(nil), b[n:n+m]...)})
+		b = b[n+m:]
+	}
+	return out, true
+}
+
+// c18gLongVarint re-encodes a minimal varint with one redundant continuation
+// group (…|0x80, 0x00): same value, one byte more.
+func c18gLongVarint(min []byte) []byte {
+	out := append([]byte(nil), min...)
+	out[len(out)-1] |= 0x80
+	return append(out, 0x00)
+}
+
+func c18gJoin(recs []c18gWireRec) []byte {
+	var out []byte
+	for _, r := range recs {
+		out = append(out, r.Raw...)
+	}
+	return out
+}
+
+// c18gEncodingVariants derives the alternative encodings from the canonical
+// bytes of a value of the given (registered) message type:
+//   - field records in reverse order / first record moved to the end,
+//   - an unknown varint field in front, between and behind the known ones,
+//   - every tag, the first length prefix, the first varint value written as a
+//     non-minimal varint,
+//   - a scalar field without presence that is absent, written explicitly with
+//     its default value (in front and at the end),
+//   - a singular scalar field given twice (earlier value is overridden),
+//   - a packed repeated numeric field written unpacked and vice versa.
+//
+// Only variants that the protobuf runtime accepts for the type and that differ
+// from the canonical bytes are returned.
+func c18gEncodingVariants(md protoreflect.MessageDescriptor, canon []byte) []c18gEncVariant {
+	recs, ok := c18gSplitRecords(canon)
+	if !ok {
+		return nil
+	}
+	var cands []c18gEncVariant
+	add := func(name string, b []byte) { cands = append(cands, c18gEncVariant{name, b}) }
+	// an unknown field: number above every declared one
+	unkNum := protowire.Number(1)
+	for i := 0; i < md.Fields().Len(); i++ {
+		if n := md.Fields().Get(i).Number(); n >= unkNum {
+			unkNum = n + 1
+		}
+	}
+	unk := protowire.AppendVarint(protowire.AppendTag(nil, unkNum, protowire.VarintType), 1)
+
+	if len(recs) >= 2 {
+		rev := make([]c18gWireRec, len(recs))
+		for i, r := range recs {
+			rev[len(recs)-1-i] = r
+		}
+		add("fields-reversed", c18gJoin(rev))
+	}
+	if len(recs) >= 3 {
+		add("first-field-last", c18gJoin(append(append([]c18gWireRec{}, recs[1:]...), recs[0])))
+	}
+	add("unknown-field-first", append(append([]byte(nil), unk...), canon...))
+	if len(recs) >= 1 {
+		add("unknown-field-behind", append(append([]byte(nil), canon...), unk...))
+	}
+	if len(recs) >= 2 {
+		b := append([]byte(nil), recs[0].Raw...)
+		b = append(b, unk...)
+		add("unknown-field-between", append(b, c18gJoin(recs[1:])...))
+	}
+	if len(recs) >= 1 {
+		var b []byte
+		for _, r := range recs {
+			tag := r.Raw[:len(r.Raw)-len(r.Val)]
+			b = append(b, c18gLongVarint(tag)...)
+			b = append(b, r.Val...)
+		}
+		add("non-minimal-tags", b)
+	}
+	for i, r := range recs {
+		if r.Typ == protowire.BytesType {
+			_, n := protowire.ConsumeVarint(r.Val)
+			var b []byte
+			b = append(b, c18gJoin(recs[:i])...)
+			b = append(b, r.Raw[:len(r.Raw)-len(r.Val)]...)
+			b = append(b, c18gLongVarint(r.Val[:n])...)
+			b = append(b, r.Val[n:]...)
+			b = append(b, c18gJoin(recs[i+1:])...)
+			add("non-minimal-length", b)
+			break
+		}
+	}
+	for i, r := range recs {
+		if r.Typ == protowire.VarintType {
+			var b []byte
+			b = append(b, c18gJoin(recs[:i])...)
+			b = append(b, r.Raw[:len(r.Raw)-len(r.Val)]...)
+			b = append(b, c18gLongVarint(r.Val)...)
+			b = append(b, c18gJoin(recs[i+1:])...)
+			add("non-minimal-varint", b)
+			break
+		}
+	}
+	present := map[protowire.Number]bool{}
+	for _, r := range recs {
+		present[r.Num] = true
+	}
+	zero := func(fd protoreflect.FieldDescriptor) []byte {
+		switch fd.Kind() {
+		case protoreflect.StringKind, protoreflect.BytesKind:
+			return protowire.AppendBytes(protowire.AppendTag(nil, fd.Number(), protowire.BytesType), nil)
+		case protoreflect.Fixed32Kind, protoreflect.Sfixed32Kind, protoreflect.FloatKind:
+			return protowire.AppendFixed32(protowire.AppendTag(nil, fd.Number(), protowire.Fixed32Type), 0)
+		case protoreflect.Fixed64Kind, protoreflect.Sfixed64Kind, protoreflect.DoubleKind:
+			return protowire.AppendFixed64(protowire.AppendTag(nil, fd.Number(), protowire.Fixed64Type), 0)
+		case protoreflect.MessageKind, protoreflect.GroupKind:
+			return nil
+		default:
+			return protowire.AppendVarint(protowire.AppendTag(nil, fd.Number(), protowire.VarintType), 0)
+		}
+	}
+	nDefault := 0
+	for i := 0; i < md.Fields().Len() && nDefault < 2; i++ {
+		fd := md.Fields().Get(i)
+		if fd.IsList() || fd.IsMap() || fd.HasPresence() || present[fd.Number()] {
+			continue
+		}
+		z := zero(fd)
+		if z == nil {
+			continue
+		}
+		nDefault++
+		add("explicit-default-first:"+string(fd.Name()), append(append([]byte(nil), z...), canon...))
+		if len(recs) >= 1 {
+			add("explicit-default-last:"+string(fd.Name()), append(append([]byte(nil), canon...), z...))
+		}
+	}
+	for i, r := range recs {
+		fd := md.Fields().ByNumber(r.Num)
+		if fd == nil || fd.IsList() || fd.IsMap() || fd.Kind() == protoreflect.MessageKind || fd.Kind() == protoreflect.GroupKind {
+			continue
+		}
+		// the same field once more in front, with another value (the default): the later one wins
+		z := zero(fd)
+		if z == nil || bytes.Equal(z, r.Raw) {
+			continue
+		}
+		var b []byte
+		b = append(b, c18gJoin(recs[:i])...)
+		b = append(b, z...)
+		b = append(b, c18gJoin(recs[i:])...)
+		add("singular-field-twice:"+string(fd.Name()), b)
+		break
+	}
+	for i, r := range recs {
+		fd := md.Fields().ByNumber(r.Num)
+		if fd == nil || !fd.IsList() {
+			continue
+		}
+		switch fd.Kind() {
+		case protoreflect.StringKind, protoreflect.BytesKind, protoreflect.MessageKind, protoreflect.GroupKind:
+			continue
+		}
+		if r.Typ == protowire.BytesType { // packed: write the elements unpacked
+			payload, n := protowire.ConsumeBytes(r.Val)
+			if n < 0 {
+				continue
+			}
+			var elemType protowire.Type
+			switch fd.Kind() {
+			case protoreflect.Fixed32Kind, protoreflect.Sfixed32Kind, protoreflect.FloatKind:
+				elemType = protowire.Fixed32Type
+			case protoreflect.Fixed64Kind, protoreflect.Sfixed64Kind, protoreflect.DoubleKind:
+				elemType = protowire.Fixed64Type
+			default:
+				elemType = protowire.VarintType
+			}
+			var b []byte
+			b = append(b, c18gJoin(recs[:i])...)
+			for len(payload) > 0 {
+				m := protowire.ConsumeFieldValue(r.Num, elemType, payload)
+				if m < 0 {
+					break
+				}
+				b = protowire.AppendTag(b, r.Num, elemType)
+				b = append(b, payload[:m]...)
+				payload = payload[m:]
+			}
+			b = append(b, c18gJoin(recs[i+1:])...)
+			add("packed-written-unpacked:"+string(fd.Name()), b)
+		} else { // unpacked element: write it as a packed run of one
+			var b []byte
+			b = append(b, c18gJoin(recs[:i])...)
+			b = protowire.AppendTag(b, r.Num, protowire.BytesType)
+			b = protowire.AppendBytes(b, r.Val)
+			b = append(b, c18gJoin(recs[i+1:])...)
+			add("unpacked-written-packed:"+string(fd.Name()), b)
+		}
+		break
+	}
+	var out []c18gEncVariant
+	seen := map[string]bool{string(canon): true}
+	for _, cand := range cands {
+		if seen[string(cand.Value)] {
+			continue
+		}
+		if err := proto.Unmarshal(cand.Value, dynamicpb.NewMessage(md)); err != nil {
+			continue // not valid for the type: outside this grammar
+		}
+		seen[string(cand.Value)] = true
+		out = append(out, cand)
+	}
+	return out
+}
+
+// c18gEncTypes: canonical values of registered message types the grammar of
+// alternative encodings is applied to (the registered types of the detail pool
+// plus types with fixed-width, bool, bytes and packed repeated fields).
+func c18gEncTypes() []c18gDetail {
+	hdr := &conformancev1.Header{Name: "x-detail", Value: []string{"a", "b%"}}
+	inner := &conformancev1.Error{Code: conformancev1.Code_CODE_ABORTED, Message: proto.String("inner é")}
+	if a, err := anypb.New(hdr); err == nil {
+		inner.Details = append(inner.Details, a)
+	}
+	mk := func(name string, m proto.Message) c18gDetail {
+		return c18gDetail{name, c18gPrefix + string(m.ProtoReflect().Descriptor().FullName()), c18gMustMarshal(m)}
+	}
+	return []c18gDetail{
+		mk("header", hdr),
+		mk("empty", &emptypb.Empty{}),
+		mk("string", wrapperspb.String("100% é\x00")),
+		mk("error", inner),
+		mk("duration", &durationpb.Duration{Seconds: 1, Nanos: 5}),
+		mk("duration-seconds-only", &durationpb.Duration{Seconds: 7}),
+		mk("header-without-name", &conformancev1.Header{Value: []string{"v"}}),
+		mk("reqinfo", &conformancev1.ConformancePayload_RequestInfo{RequestHeaders: []*conformancev1.Header{hdr}, TimeoutMs: proto.Int64(300)}),
+		mk("payload", &conformancev1.ConformancePayload{Data: []byte{0, 1, 0xff}}),
+		mk("double", wrapperspb.Double(1.5)),
+		mk("int32", wrapperspb.Int32(-1)),
+		mk("bool", wrapperspb.Bool(true)),
+		mk("location", &descriptorpb.SourceCodeInfo_Location{Path: []int32{4, 0, 300}, Span: []int32{1, 2, 3}, LeadingComments: proto.String("c")}),
+	}
+}
+
+// encodingSection: every alternative encoding of every type of c18gEncTypes
+// as the only detail, behind and in front of a canonically encoded detail and
+// twice, x 3 codes x {no message, a message}, on every conversion path. The
+// demanded result is the specification: same type URL, same BYTES.
+func (c *c18gRun) encodingSection() {
+	types := c18gEncTypes()
+	canon := types[0]
+	total := 0
+	for _, d := range types {
+		mt, err := protoregistry.GlobalTypes.FindMessageByURL(d.URL)
+		if err != nil {
+			panic(fmt.Sprintf("C18: %s is not a registered type: %v", d.URL, err))
+		}
+		variants := c18gEncodingVariants(mt.Descriptor(), d.Value)
+		total += len(variants)
+		for _, v := range variants {
+			vd := c18gDetail{Name: d.Name + "~" + v.Name, URL: d.URL, Value: v.Value}
+			layouts := [][]c18gDetail{{vd}, {canon, vd}, {vd, canon}, {vd, vd}}
+			for li, layout := range layouts {
+				for _, code := range []int32{1, 8, 16} {
+					for mi, m := range []c18gMsg{{false, ""}, {true, "an ascii message"}} {
+						id := fmt.Sprintf("gerr/enc/t=%s/v=%s/l=%d/c=%d/m=%d", d.Name, v.Name, li, code, mi)
+						if !c.take(id) {
+							continue
+						}
+						c.say("detail %s: canonical bytes %x, alternative encoding %x", vd.Name, d.Value, v.Value)
+						c.r.Outcome("enc:" + strings.SplitN(v.Name, ":", 2)[0])
+						c.errorCase(id, c18gErrSpec{Code: code, Msg: m, Details: layout})
+						if li == 0 && code == 1 && mi == 0 && c.k%7 == 0 {
+							c.r.Sample(map[string]any{"case": id, "type": d.URL, "canonical": fmt.Sprintf("%x", d.Value), "alternative-encoding": fmt.Sprintf("%x", v.Value)})
+						}
+					}
+				}
+			}
+		}
+	}
+	c.size("gerr:alternative-encodings", total)
+}
+
 func (c *c18gRun) errorSection() {
 	msgs := c18gMessages()
 	pool := c18gDetailPool()
@@ -295,6 +617,9 @@ func (c *c18gRun) errorSection() {
 			c.r.Outcome("gerr:plain:unknown+message")
 		}
 	}
+	// valid but non-canonical encodings of detail values (bytes must be carried verbatim)
+	c.encodingSection()
+
 	for li, list := range lists {
 		for mi, m := range msgs {
 			for code := int32(1); code <= 16; code++ {
@@ -394,17 +719,123 @@ func c18gUnB64(s string) (string, bool) {
 }
 
 func c18gBuildHeaders(list []c18gHdr) []*conformancev1.Header {
+	return c18gBuildHeadersForm(list, c18gFormUnpadded)
+}
+
+// The textual form a binary value has in a header list (test-case form). The
+// gRPC specification: senders SHOULD emit unpadded base64 (standard alphabet),
+// receivers MUST accept padded and unpadded. A header list written by hand or by
+// another tool (base64(1), Python, Java, Go's StdEncoding) is padded.
+const (
+	c18gFormUnpadded    = 0 // RawStdEncoding: what this code base emits
+	c18gFormPadded      = 1 // StdEncoding
+	c18gFormMixed       = 2 // values alternate: padded, unpadded, padded, …
+	c18gFormURLUnpadded = 3 // RawURLEncoding ('-' '_'): NOT base64 in the sense of the gRPC spec
+	c18gFormURLPadded   = 4 // URLEncoding
+	c18gNumForms        = 5
+)
+
+var c18gFormNames = [c18gNumForms]string{"unpadded", "padded", "mixed", "urlsafe-unpadded", "urlsafe-padded"}
+
+func c18gEncodeForm(raw string, form, pos int) string {
+	switch form {
+	case c18gFormPadded:
+		return base64.StdEncoding.EncodeToString([]byte(raw))
+	case c18gFormMixed:
+		if pos%2 == 0 {
+			return base64.StdEncoding.EncodeToString([]byte(raw))
+		}
+		return base64.RawStdEncoding.EncodeToString([]byte(raw))
+	case c18gFormURLUnpadded:
+		return base64.RawURLEncoding.EncodeToString([]byte(raw))
+	case c18gFormURLPadded:
+		return base64.URLEncoding.EncodeToString([]byte(raw))
+	}
+	return base64.RawStdEncoding.EncodeToString([]byte(raw))
+}
+
+// c18gIsStdBase64: the text is base64 over the standard alphabet, padded or not.
+func c18gIsStdBase64(s string) bool {
+	_, ok := c18gUnB64(s)
+	return ok
+}
+
+func c18gBuildHeadersForm(list []c18gHdr, form int) []*conformancev1.Header {
 	var out []*conformancev1.Header
+	pos := 0
 	for _, h := range list {
 		vals := make([]string, len(h.Values))
 		for i, v := range h.Values {
 			if c18gIsBin(h.Name) {
-				vals[i] = c18gB64(v)
+				vals[i] = c18gEncodeForm(v, form, pos)
+				pos++
 			} else {
 				vals[i] = v
 			}
 		}
 		out = append(out, &conformancev1.Header{Name: h.Name, Value: vals})
+	}
+	return out
+}
+
+// c18gFormDiffers: does the header list look different in this form than in the
+// unpadded one (otherwise the case is a duplicate)?
+func c18gFormDiffers(list []c18gHdr, form int) bool {
+	a, b := c18gBuildHeadersForm(list, form), c18gBuildHeadersForm(list, c18gFormUnpadded)
+	for i := range a {
+		if !c18gEq(a[i].GetValue(), b[i].GetValue()) {
+			return true
+		}
+	}
+	return false
+}
+
+// c18gModelForm: what the conversions owe for a header list given in a form.
+// Padded / unpadded standard base64: the raw values (the model). A value whose
+// URL-safe text is not standard base64 is outside the property ("-bin values
+// base64-encoded exactly once" presupposes base64): the code documents a
+// fallback that hands the text on verbatim; a lenient decoder would hand on the
+// raw bytes. Either is accepted for such a value (alt holds the second choice),
+// but nothing else, and count and order of the values must be kept.
+func c18gModelForm(list []c18gHdr, form int) (want, alt map[string][]string) {
+	if form != c18gFormURLUnpadded && form != c18gFormURLPadded {
+		return c18gModel(list), nil
+	}
+	want, alt = map[string][]string{}, map[string][]string{}
+	pos := 0
+	for _, h := range list {
+		k := strings.ToLower(h.Name)
+		for _, v := range h.Values {
+			w := v
+			if c18gIsBin(h.Name) {
+				text := c18gEncodeForm(v, form, pos)
+				pos++
+				if !c18gIsStdBase64(text) {
+					w = text
+				}
+			}
+			want[k] = append(want[k], w)
+			alt[k] = append(alt[k], v)
+		}
+	}
+	return want, alt
+}
+
+// c18gResolveAlt: where got holds the alternative value at a position, adopt it
+// into the model, so that the ordinary comparison judges everything else.
+func c18gResolveAlt(want, alt map[string][]string, got metadata.MD) map[string][]string {
+	if alt == nil {
+		return want
+	}
+	out := map[string][]string{}
+	for k, vs := range want {
+		out[k] = append([]string{}, vs...)
+		g := got[k]
+		for i := range vs {
+			if i < len(g) && i < len(alt[k]) && g[i] != vs[i] && g[i] == alt[k][i] {
+				out[k][i] = alt[k][i]
+			}
+		}
 	}
 	return out
 }
@@ -478,8 +909,20 @@ func c18gCheckMD(want map[string][]string, got metadata.MD) (aspect, detail stri
 		if c18gEq(g, want[k]) {
 			continue
 		}
-		if c18gIsBin(k) && c18gEq(g, c18gMap(want[k], c18gB64)) {
-			return "bin-not-decoded", fmt.Sprintf("key %q: the metadata holds the base64 text %q instead of the raw values %q (grpc-go will encode it a second time on the wire)", k, g, want[k])
+		if c18gIsBin(k) && len(g) == len(want[k]) {
+			// every value is either right or still the base64 text (padded or not) of the right value
+			text := true
+			for i := range g {
+				if g[i] == want[k][i] {
+					continue
+				}
+				if raw, ok := c18gUnB64(g[i]); !ok || raw != want[k][i] {
+					text = false
+				}
+			}
+			if text {
+				return "bin-not-decoded", fmt.Sprintf("key %q: the metadata holds the base64 text %q instead of the raw values %q (grpc-go will encode it a second time on the wire)", k, g, want[k])
+			}
 		}
 		return "values-lost-or-reordered", fmt.Sprintf("key %q: values %q became %q", k, want[k], g)
 	}
@@ -566,6 +1009,96 @@ func c18gHeadersEqual(a, b []*conformancev1.Header) bool {
 		}
 	}
 	return true
+}
+
+// metadataFormCase: the conversions that take a header list in test-case form
+// (ProtoHeader→MD incl. a second conversion, ProtoHeader→MD→ProtoHeader,
+// AppendToOutgoingContext), with the binary values of the list written in the
+// given textual form.
+func (c *c18gRun) metadataFormCase(id string, list []c18gHdr, form int) {
+	c.r.Eval(1)
+	c.r.NonTrivial("")
+	want, alt := c18gModelForm(list, form)
+	failed := false
+	fail := func(key, what, detail string) {
+		c.violate(key, id, fmt.Sprintf("%s of %s (binary values written as %s base64: %s): %s", what, fmt.Sprintf("%q", list), c18gFormNames[form], c18gFmt(c18gBuildHeadersForm(list, form)), detail))
+		failed = true
+	}
+	c.say("header list %q in form %s = %s, model %q", list, c18gFormNames[form], c18gFmt(c18gBuildHeadersForm(list, form)), want)
+	var md1, md2 metadata.MD
+	var rtH []*conformancev1.Header
+	if pn := c18gGuard(func() {
+		in := c18gBuildHeadersForm(list, form)
+		md1 = ConvertProtoHeaderToMetadata(in)
+		md2 = ConvertProtoHeaderToMetadata(in)
+		rtH = ConvertMetadataToProtoHeader(ConvertProtoHeaderToMetadata(c18gBuildHeadersForm(list, form)))
+	}); pn != "" {
+		fail("metadata:panic", "ConvertProtoHeaderToMetadata", "panic: "+pn)
+		return
+	}
+	c.say("ConvertProtoHeaderToMetadata -> %q", md1)
+	if a, d := c18gCheckMD(c18gResolveAlt(want, alt, md1), md1); a != "" {
+		fail("metadata:h2md:"+a+":"+c18gFormNames[form], "ProtoHeader→MD", d)
+	} else if a, d := c18gCheckMD(c18gResolveAlt(want, alt, md1), md2); a != "" {
+		fail("metadata:h2md-second-conversion:"+a+":"+c18gFormNames[form], "ProtoHeader→MD (same header list converted a second time)", d)
+	} else if a, d := c18gCheckHeaders(c18gResolveAlt(want, alt, md1), rtH); a != "" {
+		fail("metadata:h2md2h:"+a+":"+c18gFormNames[form], "ProtoHeader→MD→ProtoHeader", d)
+	}
+	for _, pre := range []bool{false, true} {
+		var got metadata.MD
+		if pn := c18gGuard(func() {
+			ctx := context.Background()
+			if pre {
+				ctx = metadata.AppendToOutgoingContext(ctx, "x-pre", "p")
+			}
+			ctx = AppendToOutgoingContext(ctx, c18gBuildHeadersForm(list, form))
+			got, _ = metadata.FromOutgoingContext(ctx)
+		}); pn != "" {
+			fail("metadata:panic", "AppendToOutgoingContext", "panic: "+pn)
+			break
+		}
+		c.say("AppendToOutgoingContext (pre-existing pair: %v) -> %q", pre, got)
+		wantCtx := map[string][]string{}
+		for k, v := range c18gResolveAlt(want, alt, got) {
+			wantCtx[k] = v
+		}
+		if pre {
+			wantCtx["x-pre"] = []string{"p"}
+		}
+		if a, d := c18gCheckMD(wantCtx, got); a != "" {
+			fail("metadata:outgoing:"+a+":"+c18gFormNames[form], "AppendToOutgoingContext", d)
+			break
+		}
+	}
+	if failed {
+		c.r.Outcome("md:form-" + c18gFormNames[form] + ":lossy")
+	} else {
+		c.r.Outcome("md:form-" + c18gFormNames[form] + ":preserved")
+	}
+}
+
+// metadataForms runs the list in every textual form that makes a difference.
+func (c *c18gRun) metadataForms(id string, list []c18gHdr) {
+	sig := func(form int) string {
+		var b strings.Builder
+		for _, h := range c18gBuildHeadersForm(list, form) {
+			fmt.Fprintf(&b, "%q;", h.GetValue())
+		}
+		return b.String()
+	}
+	seen := map[string]bool{sig(c18gFormUnpadded): true}
+	for form := 1; form < c18gNumForms; form++ {
+		sg := sig(form)
+		if seen[sg] {
+			continue // looks the same as an earlier form: duplicate
+		}
+		seen[sg] = true
+		fid := fmt.Sprintf("%s/f=%d", id, form)
+		if !c.take(fid) {
+			continue
+		}
+		c.metadataFormCase(fid, list, form)
+	}
 }
 
 func (c *c18gRun) metadataCase(id string, list []c18gHdr) {
@@ -719,16 +1252,18 @@ func (c *c18gRun) metadataSection() {
 		}
 		n++
 		id := "md/" + strings.Trim(strings.Join(strings.Fields(fmt.Sprint(idx)), ","), "[]")
+		list := make([]c18gHdr, len(idx))
+		for i, e := range idx {
+			list[i] = entries[e]
+		}
 		if c.take(id) {
-			list := make([]c18gHdr, len(idx))
-			for i, e := range idx {
-				list[i] = entries[e]
-			}
 			c.metadataCase(id, list)
 			if n%331 == 7 {
 				c.r.Sample(map[string]any{"case": id, "headers": fmt.Sprintf("%q", list)})
 			}
 		}
+		// the same list with its binary values written padded / mixed / URL-safe
+		c.metadataForms(id, list)
 		if depth == maxLen {
 			return
 		}
@@ -765,6 +1300,23 @@ func c18gBinaryValues(thorough bool) []string {
 			}
 		}
 	}
+	// lengths 4, 5, 6 (so that every length 0..6, i.e. every padding situation
+	// twice, occurs): all strings over a 3-byte alphabet whose base64 text uses
+	// '+' '/' (0xfb 0xff), '-'/'_' in the URL-safe alphabet, and plain letters
+	a3 := []byte{0x00, 0xfb, 0xff}
+	for l := 4; l <= 6; l++ {
+		n := 1
+		for i := 0; i < l; i++ {
+			n *= len(a3)
+		}
+		for k := 0; k < n; k++ {
+			b := make([]byte, l)
+			for i, x := 0, k; i < l; i, x = i+1, x/len(a3) {
+				b[i] = a3[x%len(a3)]
+			}
+			out = append(out, string(b))
+		}
+	}
 	out = append(out, "", "AAAA", "AA==", "QUJD", "UVVKRA", strings.Repeat("\x00\xffbinary", 40))
 	return out
 }
@@ -777,17 +1329,17 @@ func (c *c18gRun) binarySection() {
 		for ni, name := range names {
 			for shape := 0; shape < 2; shape++ {
 				id := fmt.Sprintf("bin/v=%d/n=%d/s=%d", vi, ni, shape)
-				if !c.take(id) {
-					continue
-				}
 				list := []c18gHdr{{name, []string{v}}}
 				if shape == 1 {
 					list = []c18gHdr{{name, []string{v, "\x00\x01"}}, {"x-test", []string{"t"}}}
 				}
-				c.metadataCase(id, list)
-				if vi%211 == 3 && ni == 0 && shape == 0 {
-					c.r.Sample(map[string]any{"case": id, "headers": fmt.Sprintf("%q", list)})
+				if c.take(id) {
+					c.metadataCase(id, list)
+					if vi%211 == 3 && ni == 0 && shape == 0 {
+						c.r.Sample(map[string]any{"case": id, "headers": fmt.Sprintf("%q", list)})
+					}
 				}
+				c.metadataForms(id, list)
 			}
 		}
 	}
@@ -946,8 +1498,8 @@ func TestVerifC18Grpcutil(t *testing.T) {
 		c.replayID = rec.Replay.Case
 	}
 	c.r.Rule = "percent: every byte string of length ≤2 and all 3-byte strings over a 16 (thorough 40) byte alphabet, judged by an independent %XX decoder; " +
-		"metadata: all lists of ≤2 (thorough ≤3) entries over 7 names (3 case variants of a text key and of a -bin key, one more key) x value lists (repeats, order swaps, empty value, no value; raw binary values incl. one that is itself valid base64), plus one -bin key in 3 case variants carrying every 1-byte value, 256 2-byte and 512 (4096) 3-byte values alone and followed by a second value; each through ProtoHeader→MD, MD→ProtoHeader (same object twice), both round trips and AppendToOutgoingContext (empty and pre-filled context); " +
-		"errors: codes 1..16 x messages {unset, \"\", ascii, each single byte 0..127, 14 multi-byte/%-strings} x ordered lists of 0..2 (thorough 0..3) details from a pool of 8, through Proto→gRPC→Proto, twice, and the mixed Connect/gRPC chains; a case is non-trivial when it is a distinct non-empty input"
+		"metadata: all lists of ≤2 (thorough ≤3) entries over 7 names (3 case variants of a text key and of a -bin key, one more key) x value lists (repeats, order swaps, empty value, no value; raw binary values incl. one that is itself valid base64), plus one -bin key in 3 case variants carrying every 1-byte value, 256 2-byte and 512 (4096) 3-byte values and all 4-6 byte values over {00, fb, ff} alone and followed by a second value; every list with -bin values additionally with their base64 text written padded, mixed padded/unpadded and in the URL-safe alphabet (model: the raw bytes; for URL-safe text that is not standard base64 the raw bytes or the verbatim text); each through ProtoHeader→MD, MD→ProtoHeader (same object twice), both round trips and AppendToOutgoingContext (empty and pre-filled context); " +
+		"errors: codes 1..16 x messages {unset, \"\", ascii, each single byte 0..127, 14 multi-byte/%-strings} x ordered lists of 0..2 (thorough 0..3) details from a pool of 8, through Proto→gRPC→Proto, twice, and the mixed Connect/gRPC chains, plus the grammar of alternative (valid, non-canonical) encodings of 13 values of 11 registered detail types on the same paths; a case is non-trivial when it is a distinct non-empty input"
 	sections := []struct {
 		prefix string
 		run    func()
